@@ -59,8 +59,8 @@ func isPublishAwaiterCall(in ssa.Instruction) bool {
 func notifierValue(v ssa.Value) bool {
 	seen := map[ssa.Value]bool{}
 	found := false
-	var walk func(v ssa.Value) bool
-	walk = func(v ssa.Value) bool {
+	var walk func(v ssa.Value, viaCell bool) bool
+	walk = func(v ssa.Value, viaCell bool) bool {
 		if seen[v] {
 			return true
 		}
@@ -75,7 +75,12 @@ func notifierValue(v ssa.Value) bool {
 			return false
 		case *ssa.Phi:
 			for _, e := range x.Edges {
-				if !walk(e) {
+				// a nil put in by hand on some path (`wake := ch; if quiet { wake = nil }`) switches the wait off there:
+				// the case never fires although the channel is registered and will be closed
+				if k, isK := strip(e).(*ssa.Const); isK && k.Value == nil && !viaCell {
+					return false
+				}
+				if !walk(e, viaCell) {
 					return false
 				}
 			}
@@ -87,7 +92,7 @@ func notifierValue(v ssa.Value) bool {
 					return false
 				}
 				for _, s := range st {
-					if !walk(s.Val) {
+					if !walk(s.Val, true) {
 						return false
 					}
 				}
@@ -98,12 +103,12 @@ func notifierValue(v ssa.Value) bool {
 		case *ssa.Parameter:
 			// inside a private wait helper: the channel is the caller's
 			if b, ok := curBind[x]; ok {
-				return walk(b)
+				return walk(b, viaCell)
 			}
 		}
 		return false
 	}
-	return walk(v) && found
+	return walk(v, false) && found
 }
 
 type waitSite struct {
